@@ -52,6 +52,10 @@ RULE += (
     'middle of a bulk read; populations of 65-130 clients; the stream of a dataset whose clie'
     'nts were fetched by id before; restart in a child interpreter under another PYTHONHASHSE'
     'ED.')
+RULE += (
+    ' '
+    'Also: equal in-memory mappings filled in varying key order; a sibling sampler with the s'
+    'ame seed over a larger population in the restarting process.')
 ASSUMPTIONS = [
     'round numbers are in [0, 2^32 - 64]: without jax_enable_x64 '
     'jax.random.PRNGKey(r) keeps only the low 32 bits of r, so rounds r and '
